@@ -215,6 +215,12 @@ fn generate(thorough: bool) -> (String, Vec<Probe>, usize) {
             g.n_types += 1;
             g.probe(&format!("{ty}::Table"), &format!("container rename {}", show(r)), "table-from-container-rename", r, false);
             g.probe(&format!("{ty}::Other"), "variant beside a renamed container", "variant-snake-case", "other", false);
+            // the same for IdenStatic (as_str must agree with to_string), in the other attribute form
+            let tys = format!("Cs{ri}");
+            writeln!(g.src, "#[derive(IdenStatic, Clone, Copy)]\n#[iden(rename = {lit})]\nenum {tys} {{ Table, Other }}").unwrap();
+            g.n_types += 1;
+            g.probe(&format!("{tys}::Table"), &format!("static container rename {}", show(r)), "table-from-container-rename", r, true);
+            g.probe(&format!("{tys}::Other"), "variant beside a renamed static container", "variant-snake-case", "other", true);
             let ty2 = format!("D{ri}");
             writeln!(g.src, "#[derive(IdenStatic, Clone, Copy)]\n#[iden(rename = {lit})]\nstruct {ty2};").unwrap();
             g.n_types += 1;
@@ -255,6 +261,22 @@ fn generate(thorough: bool) -> (String, Vec<Probe>, usize) {
     g.probe("DocInvoice::Inner(Vr2::Deep)", "flatten attribute after a doc comment", "flatten", "deep", false);
     g.probe("DocInvoice::Plain", "variant beside documented variants", "variant-snake-case", "plain", false);
     g.probe("DocUnit", "unit struct rename after a doc comment and a lint attribute", "unit-struct-rename", "doc_unit", true);
+    // (3c) attributes on variants that carry fields (named and unnamed), in every attribute spelling
+    g.src.push_str("#[derive(Iden)]\nenum FieldV { Table, #[iden = \"AddrLine\"] Address { line: u8 }, #[iden(rename = \"zip_code\")] Zip { z: u8 }, #[method = \"m1\"] ByMethod { x: u8 }, #[iden(method = \"m2\")] ByMethod2 { x: u8 }, #[iden = \"tup\"] Tup(u8), #[iden(rename = \"tup2\")] Tup2(u8, u8), #[method = \"m1\"] TupM(u8), PlainNamed { y: u8 } }\nimpl FieldV { fn m1(&self) -> &str { \"by_m1\" } fn m2(&self) -> &str { \"by_m2\" } }\n");
+    g.src.push_str("#[derive(IdenStatic, Clone, Copy)]\nenum FieldS { Table, #[iden = \"AddrLine\"] Address { line: u8 }, #[iden(rename = \"zip_code\")] Zip { z: u8 }, #[iden = \"tup\"] Tup(u8), PlainNamed { y: u8 } }\n");
+    g.n_types += 2;
+    g.probe("FieldV::Address { line: 1 }", "rename on a variant with named fields", "variant-rename", "AddrLine", false);
+    g.probe("FieldV::Zip { z: 1 }", "rename (list form) on a variant with named fields", "variant-rename", "zip_code", false);
+    g.probe("FieldV::ByMethod { x: 1 }", "method on a variant with named fields", "method", "by_m1", false);
+    g.probe("FieldV::ByMethod2 { x: 1 }", "method (list form) on a variant with named fields", "method", "by_m2", false);
+    g.probe("FieldV::Tup(1)", "rename on a tuple variant", "variant-rename", "tup", false);
+    g.probe("FieldV::Tup2(1, 2)", "rename (list form) on a tuple variant", "variant-rename", "tup2", false);
+    g.probe("FieldV::TupM(1)", "method on a tuple variant", "method", "by_m1", false);
+    g.probe("FieldV::PlainNamed { y: 1 }", "variant with named fields beside renamed ones", "variant-snake-case", "plain_named", false);
+    g.probe("FieldS::Address { line: 1 }", "static rename on a variant with named fields", "variant-rename", "AddrLine", true);
+    g.probe("FieldS::Zip { z: 1 }", "static rename (list form) on a variant with named fields", "variant-rename", "zip_code", true);
+    g.probe("FieldS::Tup(1)", "static rename on a tuple variant", "variant-rename", "tup", true);
+    g.probe("FieldS::PlainNamed { y: 1 }", "static variant with named fields", "variant-snake-case", "plain_named", true);
     // (4) enum_def
     // canonical snake-case names and names a snake-case conversion would change (the identifier is the field as written)
     let fields = ["a", "ab_c", "a1", "x_y_z9", "camel", "_id", "shard__key", "type_", "userId"];
